@@ -379,6 +379,27 @@ def finish(ctx, level, coverage, assumptions):
     sys.exit(1 if new else 0)
 
 
+def tlaps(ctx, files, module, timeout=600):
+    """Run the TLA+ proof system on spec/<module>.tla (with the listed spec files beside it).
+    Returns {"tlaps": summary line, "tlaps_proved": bool}.  Never raises: the outcome of a proof
+    is recorded in the evidence and is not part of a verdict (SMT time-outs depend on load)."""
+    d = os.path.join(ctx.scratch, "proof-" + module)
+    os.makedirs(d, exist_ok=True)
+    out = {}
+    try:
+        for f in list(files) + [module + ".tla"]:
+            shutil.copyfile(os.path.join(SPEC, f), os.path.join(d, f))
+        p = subprocess.run(["tlapm", "--threads", "4", module + ".tla"], cwd=d, capture_output=True, text=True, timeout=timeout)
+        m = [l for l in (p.stdout + p.stderr).splitlines() if "obligation" in l]
+        out["tlaps"] = m[-1].strip() if m else "no summary (exit %d)" % p.returncode
+        out["tlaps_proved"] = bool(m) and "All" in m[-1] and "proved" in m[-1]
+    except Exception as e:   # noqa
+        out["tlaps"] = "not run: %s" % e
+        out["tlaps_proved"] = False
+    log("TLAPS %s: %s" % (module, out["tlaps"]))
+    return out
+
+
 def add_violations_from_bad(ctx, bad, trace_path, what_prefix="", sig_of=None, reset_event="Reset",
                             verdict=lambda tag: tag.startswith("Inv."), max_report=8):
     """Turn monitor judgements into violations.
